@@ -1,10 +1,17 @@
 import Verif.Util.Proto
 import Verif.Model.Exec
+import Verif.Model.ExecStore
 /-! Driver for stream `exec` (C24): op `exec <engine> {<kind> <nsigners> <limit> <src>}*`,
 observation = traces of the steps separated by ` | `.  Each trace is judged by the direct reading of
 the property (spec oracle: `hasWrite`, `writesAfterRun`, `endsErr`, `hasTempCommit`) and by the
-acceptor of the executor protocol (model). -/
-open Verif.Proto Verif.Model.Exec
+acceptor of the executor protocol (model).
+
+`stale-read-after-commit` (theorem `commit_complete`): the state probes `l:@b<channel>:<digest>` /
+`l:@e<channel>:<digest>` that the generated programs log are folded over the history with the register
+map of the reference semantics (`Verif.Model.ExecStore.Probe`): what a step reads of a channel at its
+start must be what the last committed step had in memory at its end (or what the previous step read, if
+nothing was committed since). -/
+open Verif.Proto Verif.Model.Exec Verif.Model.ExecStore
 
 def hexNat (s : String) : Option Nat :=
   s.toList.foldlM (fun acc c => (hexDigit c).map (fun d => acc * 16 + d)) 0
@@ -80,6 +87,32 @@ def judgeStep (kind : Kind) (trace : String) : StepV :=
         .ok [kindTag, resTag, ranTag, wTag]
       | .error r => .diff (rejTag r)
 
+/-- the probes and the written owners of one step's trace -/
+def stepObs (kind : Kind) (trace : String) : StepObs :=
+  let toks := (trace.splitOn " ").filter (· ≠ "")
+  let probes (phase : String) : List (String × String) := toks.filterMap (fun t =>
+    if t.startsWith ("l:@" ++ phase) then
+      match (t.drop 4).toString.splitOn ":" with
+      | [ch, d] => some (ch, d)
+      | _ => none
+    else none)
+  let wrote := toks.filterMap (fun t =>
+    if t.startsWith "w:" then some (((t.drop 2).toString.splitOn "/").headD "") else none)
+  { commits := kind != .script && toks.getLast? == some "end:ok",
+    begins := probes "b", ends := probes "e", wrote := wrote.eraseDups }
+
+/-- the owner whose registers hold a channel: `01` / `02` = the account's storage paths, `r01` / `r02` =
+the resources stored there, `c01` = the fields of the contract deployed to 0x1 -/
+def channelOwners (ch : String) : List String :=
+  [if ch.startsWith "c" || ch.startsWith "r" then (ch.drop 1).toString else ch]
+
+/-- fold the probes over the history: (stale channels found, number of comparisons made) -/
+def probeHistory (obs : List StepObs) : List String × Nat :=
+  (obs.foldl (fun (acc : Probe × List String × Nat) o =>
+    let (p, stale, n) := acc
+    let compared := (o.begins.filter (fun (ch, _) => (p.get ch).isSome)).length
+    (p.next channelOwners o, stale ++ staleChannels p o, n + compared)) ([], [], 0)).2
+
 def judge (op : List String) (go : String) : Verdict :=
   match op with
   | "exec" :: _engine :: rest =>
@@ -91,6 +124,11 @@ def judge (op : List String) (go : String) : Verdict :=
     if go == "panic" || go == "hang" then .violation "go-panic-or-hang" "the harness must not crash" [] else
     if ks.length ≠ traces.length || ks.any Option.isNone then .skip "bad-op" else
     let vs := (ks.zip traces).map (fun (k, t) => judgeStep (k.getD .tx) t)
+    let (stale, compared) := probeHistory ((ks.zip traces).map (fun (k, t) => stepObs (k.getD .tx) t))
+    if !stale.isEmpty then
+      .violation "stale-read-after-commit"
+        s!"a step reads, of channel {stale.headD ""}, the state the last committed transaction had in memory at its end (commit_complete)" []
+    else
     match vs.findSome? (fun v => match v with | .viol c s => some (c, s) | _ => none) with
     | some (c, s) => .violation c s []
     | none =>
@@ -103,7 +141,7 @@ def judge (op : List String) (go : String) : Verdict :=
           let tags := vs.foldl (fun acc v => match v with
             | .ok ts => let t := "-".intercalate ts; if acc.contains t then acc else t :: acc
             | _ => acc) []
-          .ok ("!nt" :: tags.reverse)
+          .ok ("!nt" :: (if compared > 0 then ["reads-compared"] else []) ++ tags.reverse)
   | _ => .skip "unknown-op"
 
 def main : IO Unit := runDriver judge
